@@ -33,21 +33,23 @@ import (
 
 // Cell is one case descriptor.
 type Cell struct {
-	Kind      string `json:"kind"`      // real | argv | seq
-	Transport string `json:"transport"` // standard | system
-	Strict    bool   `json:"strict"`
-	KH        string `json:"known_hosts"` // has | other | empty | none
-	Auth      string `json:"auth"`        // password | key | both
-	User      int    `json:"user"`        // index into the two users
-	Srv       int    `json:"server"`      // index into the two server instances (two ports)
-	Cfg       bool   `json:"ssh_config"`  // argv cells: an ssh config file is configured
-	Rep       int    `json:"rep"`
-	ReadSize  int    `json:"read_size"`
-	Host      string `json:"host,omitempty"`             // "" = 127.0.0.1; "localhost" = a name (resolves via /etc/hosts)
-	PortMode  string `json:"port_mode,omitempty"`        // "" = the server's port; explicit22 = WithPort(22); default22 = no WithPort
-	HomeKH    string `json:"home_known_hosts,omitempty"` // $HOME/.ssh/known_hosts of the worker while the cell runs: has | other | nofile (never the real home)
-	NoticeMs  int    `json:"notice_pause_ms,omitempty"`  // the device prints post-login notice lines containing "password" and ending in ':' and pauses this long before its prompt
-	CfgKind   string `json:"ssh_config_kind,omitempty"`  // ssh config file with hostile directives (see setup); overrides ssh_config
+	Kind       string `json:"kind"`      // real | argv | seq
+	Transport  string `json:"transport"` // standard | system
+	Strict     bool   `json:"strict"`
+	KH         string `json:"known_hosts"` // has | other | empty | none
+	Auth       string `json:"auth"`        // password | key | both
+	User       int    `json:"user"`        // index into the two users
+	Srv        int    `json:"server"`      // index into the two server instances (two ports)
+	Cfg        bool   `json:"ssh_config"`  // argv cells: an ssh config file is configured
+	Rep        int    `json:"rep"`
+	ReadSize   int    `json:"read_size"`
+	Host       string `json:"host,omitempty"`             // "" = 127.0.0.1; "localhost" = a name (resolves via /etc/hosts)
+	PortMode   string `json:"port_mode,omitempty"`        // "" = the server's port; explicit22 = WithPort(22); default22 = no WithPort
+	HomeKH     string `json:"home_known_hosts,omitempty"` // $HOME/.ssh/known_hosts of the worker while the cell runs: has | other | nofile (never the real home)
+	NoticeMs   int    `json:"notice_pause_ms,omitempty"`  // the device prints post-login notice lines containing "password" and ending in ':' and pauses this long before its prompt
+	NoticeKind string `json:"notice_kind,omitempty"`      // "" = lines that mention password and end in ':'; prompt-like = a line ENDING in "password:" (standard transport only: the in-channel login of the system transport legitimately answers such a line)
+	KeyMode    int    `json:"key_file_mode,omitempty"`    // keymode cells: mode of the (copied) key file
+	CfgKind    string `json:"ssh_config_kind,omitempty"`  // ssh config file with hostile directives (see setup); overrides ssh_config
 	// seq cells: states of ONE known-hosts path at consecutive strict opens in one process
 	Steps []string `json:"steps,omitempty"`
 	Reuse bool     `json:"reuse_transport,omitempty"` // seq: one Transport object for all opens (else a fresh one per open); retry: Transport.Close between the opens
@@ -398,6 +400,11 @@ func teardown() {
 
 const prompt = "c14dev#"
 
+// promptLikeNotice: post-login lines of which one ENDS in "password:" - what a device with a notice
+// about its enable password or a self-service portal prints. Over the standard transport nothing
+// may ever be typed in reply (authentication happened in the ssh protocol).
+const promptLikeNotice = "welcome to the c14 device\r\nuse the self-service portal to rotate your password:\r\n  https://portal.example/rotate\r\nEnter enable password: \r\n"
+
 // noticeText: post-login lines that contain the word "password" and end in a colon, but are not a
 // password prompt (no "password:" at the end of a line).
 const noticeText = "welcome to the c14 device\r\nNOTICE: password rotation is enforced for the following accounts:\r\n  ops, backup\r\n" +
@@ -515,7 +522,7 @@ func (c Cell) label() string {
 		x += "/home-known-hosts=" + c.HomeKH
 	}
 	if c.NoticeMs > 0 {
-		x += fmt.Sprintf("/notice+%dms", c.NoticeMs)
+		x += fmt.Sprintf("/notice%s+%dms", c.NoticeKind, c.NoticeMs)
 	}
 	return fmt.Sprintf("%s/%s/kh=%s/auth=%s%s", c.Transport, s, c.KH, c.Auth, x)
 }
@@ -670,6 +677,11 @@ func runReal(c Cell) mon.Result {
 	}
 	var served []*sshsim.Served
 	var smu sync.Mutex
+	// notice cells: the device shows its prompt only after a pause; a caller of the standard transport
+	// (whose Open does not wait for the prompt) sends its first command after the prompt is out, as it
+	// would with a real device
+	noticeDone := make(chan struct{})
+	var noticeOnce sync.Once
 	var c0 [3]int64
 	for i, s := range w.srv {
 		for _, x := range w.users {
@@ -682,6 +694,9 @@ func runReal(c Cell) mon.Result {
 			if c.NoticeMs > 0 { // post-login notices, then a pause, then the prompt
 				dev.NoInitialPrompt = true
 				dev.Banner = []devsim.Token{devsim.T(noticeText)}
+				if c.NoticeKind == "prompt-like" {
+					dev.Banner = []devsim.Token{devsim.T(promptLikeNotice)}
+				}
 			}
 			sv := sshsim.Serve(ss, dev, devsim.Seg{Mode: "mix", Size: 100, Seed: int64(w.seq)})
 			smu.Lock()
@@ -691,6 +706,7 @@ func runReal(c Cell) mon.Result {
 				go func() {
 					time.Sleep(time.Duration(c.NoticeMs) * time.Millisecond)
 					sv.Conn.Do(func() { sv.Conn.Emit([]byte(prompt)) })
+					noticeOnce.Do(func() { close(noticeDone) })
 				}()
 			}
 			sv.Wait(60 * time.Second)
@@ -717,6 +733,12 @@ func runReal(c Cell) mon.Result {
 	var cmdErr error
 	if openErr == nil {
 		ob.Open = "ok"
+		if c.NoticeMs > 0 {
+			select {
+			case <-noticeDone:
+			case <-time.After(3 * time.Second):
+			}
+		}
 		r, e := d.SendCommand("show token!")
 		cmdErr = e
 		if e == nil {
@@ -1223,6 +1245,28 @@ func gen(tier string, seed int64) []mon.Case {
 			}
 		}
 	}
+	// key + password with a loose key-file mode; standard transport with a device that prints a line
+	// ending in "password:" before its first prompt
+	for rep := 0; rep < reps; rep++ {
+		k := 0
+		for _, tr := range []string{"system", "standard"} {
+			for _, mode := range []int{0o644, 0o640, 0o600} {
+				for _, auth := range []string{"both", "key"} {
+					c := Cell{Kind: "keymode", Transport: tr, Strict: true, KH: "has", Auth: auth, User: (k + rep) % 2, Srv: k % 2, Rep: rep, ReadSize: 8192, KeyMode: mode}
+					cs = append(cs, mon.MkCase(fmt.Sprintf("c14/r%d/km%02d-keymode.%s.%04o.auth=%s", rep, k, tr, mode, auth), c))
+					k++
+				}
+			}
+		}
+		for i, auth := range []string{"password", "both", "key"} {
+			for srv := 0; srv < 2; srv++ {
+				c := Cell{Kind: "real", Transport: "standard", Strict: true, KH: "has", Auth: auth, User: (k + rep) % 2, Srv: srv, Rep: rep, ReadSize: 8192,
+					NoticeMs: []int{50, 150, 300}[(i+srv+rep)%3], NoticeKind: "prompt-like"}
+				cs = append(cs, mon.MkCase(fmt.Sprintf("c14/r%d/pn%02d-%s.srv%d", rep, k, strings.ReplaceAll(c.label(), "/", "."), srv), c))
+				k++
+			}
+		}
+	}
 	// retry on ONE object after an Open that failed inside Transport.Open
 	for rep := 0; rep < reps; rep++ {
 		k := 0
@@ -1284,7 +1328,8 @@ func init() {
 			"standard with the bad-option error), and 12 cells whose device prints post-login notice lines containing the word password and ending in ':' and pauses 50-300 ms before its prompt; in every connecting " +
 			"cell the bytes arriving on the session's stdin must not contain the password. Plus 8 concurrent cells per repetition (a legitimate connection A stays open while attempts B to the same server and user with another key / empty known-hosts / a wrong password must be " +
 			"refused and a legitimate B must connect with its OWN new connection and login at the server), and 20 host-key rotation sequences (three opens of one transport object resp. fresh objects with the server's " +
-			"host key rotated in between: checking off must always connect, strict connects exactly when the file holds the current key). Plus 66 retry sequences per repetition on ONE driver object: Open #1 under a configuration that must fail inside Transport.Open (strict + no / missing / half-written known-hosts " +
+			"host key rotated in between: checking off must always connect, strict connects exactly when the file holds the current key). Plus 12 key-file-mode cells per repetition (key + password resp. key only, key file 0644/0640/0600, server accepts key or password: whenever the connection comes up the configured key must be what logged in) " +
+			"and 6 standard-transport cells whose device prints a line ENDING in 'password:' before its first prompt (nothing may be typed into the session). Plus 66 retry sequences per repetition on ONE driver object: Open #1 under a configuration that must fail inside Transport.Open (strict + no / missing / half-written known-hosts " +
 			"file; missing / half-written / unauthorised key file), optional Transport.Close, optional repair, Open #2 judged as a fresh object would be under the files at that moment (server accepts key and " +
 			"password, so a silent fallback to the password is visible). Plus 32 sequences per repetition in which ONE known-hosts path changes its contents between three consecutive strict opens in one process " +
 			"(has>other>has, has>empty>has, empty>has>empty, other>has>other; both transports; fresh Transport object per open and one re-used object; transport level, key auth): " +
@@ -1324,6 +1369,9 @@ func init() {
 			}
 			if c.Kind == "rotate" {
 				return runRotate(c)
+			}
+			if c.Kind == "keymode" {
+				return runKeyMode(c)
 			}
 			if c.Kind == "argv" {
 				return runArgv(c)
